@@ -125,6 +125,17 @@ def streams(rng, tier):
         for c in rng.sample(cand, min(len(cand), 300 if tier == "quick" else 3000)):
             lived.append(dict(c, lived=rng.randrange(1 << 30)))
     out.append(("lived-in", lived))
+    # the same cases on a table whose columns EXCHANGED their names through live column views after the table had been
+    # sorted by name under the old assignment: a key given by name is the column that carries the name now
+    ren = []
+    for name, cases in out[:-1]:
+        cand = [c for c in cases if c.get("op") != "vector" and c.get("cols") and len(c["cols"]) >= 2 and len(c["cols"][0]) >= 2
+                and any(s_[0] == "n" for s_ in c.get("by", ()))]
+        for c in rng.sample(cand, min(len(cand), 150 if tier == "quick" else 1500)):
+            k = len(c["cols"])
+            rot = rng.randrange(1, k)
+            ren.append(dict(c, renamed=[(j + rot) % k for j in range(k)]))
+    out.append(("renamed", ren))
     return out
 
 
@@ -240,6 +251,20 @@ def observe(case):
                         pass
             t, _ = V.lived_in_table(lambda cs: Table({nm: list(c) for nm, c in zip(names, cs)}),
                                     [[V.dec(x) for x in col] for col in case["cols"]], case["lived"], warm)
+        elif case.get("renamed"):
+            perm = case["renamed"]
+            t = Table({names[perm[j]]: [V.dec(x) for x in col] for j, col in enumerate(case["cols"])})
+            for nm in names:                                 # used under the old names
+                for probe in (lambda: t.sort_by(nm), lambda: t[nm], lambda: getattr(t, nm), lambda: t[nm, ]):
+                    try:
+                        probe()
+                    except Exception:                        # noqa: BLE001
+                        pass
+            live = list(t.cols())
+            for j, c in enumerate(live):
+                c.name = f"tmp{j}"
+            for j, c in enumerate(live):
+                c.name = names[j]
         else:
             t = Table({nm: [V.dec(x) for x in col] for nm, col in zip(names, case["cols"])})
         pre = _enc_cols(t)
